@@ -6,6 +6,7 @@ import (
 	"context"
 	"database/sql"
 	"fmt"
+	"net/http"
 	"sync"
 
 	"github.com/uptrace/bun"
@@ -78,6 +79,7 @@ type Stack struct {
 	Driver   *driver.Driver
 	Sys      *systemcontroller.DefaultController
 	Listener *RecListener
+	router   http.Handler
 }
 
 type Options struct {
